@@ -243,6 +243,12 @@ theorem buffered_sim_fail (ops : List StreamOp) (d : OStream) (cap chunk : Nat) 
     (runStreamOpsB ops (BStream.onDevice d cap chunk)).flush.dev.content = (runStreamOps ops d).content := by
   unfold BStream.fail; rw [buffered_sim]; exact ⟨rfl, rfl⟩
 
+/-- delayed, never invented: a failure the buffered stream shows *before* the flush is one the unbuffered
+    stream has as well (the converse fails: `buffered_delay_witness`) -/
+theorem buffered_fail_early (ops : List StreamOp) (d : OStream) (cap chunk : Nat)
+    (h : (runStreamOpsB ops (BStream.onDevice d cap chunk)).fail = true) : (runStreamOps ops d).fail = true := by
+  rw [← buffered_sim ops d cap chunk, BStream.flush_of_fail h]; exact h
+
 /-- a failure that has shown stays: no later operation, and no flush, changes the buffered stream -/
 theorem fail_sticky_buffered (b : BStream) (h : b.fail = true) :
     (∀ bs, b.write bs = b) ∧ (∀ p, b.seekp p = b) ∧ b.seekEnd = b ∧ (∀ off, b.adjust off = b) ∧
